@@ -123,6 +123,7 @@ class CompiledLogicNet(torch.nn.Module):
                 self.pooling_layers.append(pool_info)
                 self.layer_order.append(('pool', len(self.pooling_layers) - 1))
             elif isinstance(layer, LogicDense):
+                self._check_wiring_range(type(layer).__name__, layer.indices, (layer.in_dim,))
                 self.linear_layers.append(
                     (layer.indices[0], layer.indices[1], layer.get_gate_ids())
                 )
@@ -213,8 +214,19 @@ class CompiledLogicNet(torch.nn.Module):
             raise ValueError(f"The number of outputs ({self._get_output_size()}) must be divisible by the "
                              f"number of classes ({self.num_classes}).")
 
+    @staticmethod
+    def _check_wiring_range(name, index_tensors, limits):
+        """The wiring is written into the C code verbatim: every index must name an existing element
+        (PyTorch itself would also accept Python-style negative indices)."""
+        for idx in index_tensors:
+            idx = idx.reshape(-1, len(limits)) if len(limits) > 1 else idx.reshape(-1, 1)
+            if idx.numel() and (int(idx.min()) < 0 or any(int(idx[:, d].max()) >= lim for d, lim in enumerate(limits))):
+                raise ValueError(f"Cannot compile {name}: its wiring refers to inputs that do not exist (index out of range or negative).")
+
     def _extract_conv_layer_info(self, layer: Union[LogicConv2d, LogicConv3d]) -> Dict[str, Any]:
         """Extract information from a LogicConv2d or LogicConv3d layer for compilation."""
+        padded = tuple(int(n) + 2 * int(layer.padding or 0) for n in layer.in_dim)
+        self._check_wiring_range(type(layer).__name__, layer.indices[0], padded + (layer.channels,))
         is_walsh = getattr(layer, "parametrization", "raw") == "walsh"
         tree_operations = []
         for level_idx, level_weights in enumerate(layer.tree_weights):
